@@ -264,15 +264,24 @@ pub fn parse_expr(
 
             builder.build().map_err(Error::DataFusionError)
         }
-        ExprType::Alias(alias) => Ok(Expr::Alias(Alias::new(
-            parse_required_expr(alias.expr.as_deref(), ctx, "expr", codec)?,
-            alias
-                .relation
-                .first()
-                .map(|r| TableReference::try_from(r.clone()))
-                .transpose()?,
-            alias.alias.clone(),
-        ))),
+        ExprType::Alias(alias) => Ok(Expr::Alias(
+            Alias::new(
+                parse_required_expr(alias.expr.as_deref(), ctx, "expr", codec)?,
+                alias
+                    .relation
+                    .first()
+                    .map(|r| TableReference::try_from(r.clone()))
+                    .transpose()?,
+                alias.alias.clone(),
+            )
+            .with_metadata(if alias.metadata.is_empty() {
+                None
+            } else {
+                Some(datafusion_common::metadata::FieldMetadata::from(
+                    alias.metadata.clone(),
+                ))
+            }),
+        )),
         ExprType::IsNullExpr(is_null) => Ok(Expr::IsNull(Box::new(parse_required_expr(
             is_null.expr.as_deref(),
             ctx,
